@@ -122,6 +122,27 @@ func init() {
 		b.b = append(b.b, sl.A...)
 		return Tuple{int64(len(sl.A)), Iface{}}
 	}
+	// fmt.Fprintf / Fprint into a modelled buffer: the text is formatted by the real fmt (concrete operands only)
+	fprint := func(format string) func(p *Path, fn *ssa.Function, a []Value) Value {
+		return func(p *Path, fn *ssa.Function, a []Value) Value {
+			w, _ := a[0].(Iface)
+			cell, ok := w.V.(*Value)
+			if !ok || w.T == nil || (w.T.String() != "*bytes.Buffer" && w.T.String() != "*strings.Builder") {
+				panic(unsupported("%s into a writer of type %v", fn, w.T))
+			}
+			res, ok := p.callNative(format, natives[format], fn, a[1:])
+			if !ok {
+				panic(unsupported("%s with symbolic operands", fn))
+			}
+			text := res.(string)
+			b := p.buf(cell)
+			b.b = append(b.b, strBytes(text)...)
+			return Tuple{int64(len(text)), Iface{}}
+		}
+	}
+	models["fmt.Fprintf"] = fprint("fmt.Sprintf")
+	models["fmt.Fprint"] = fprint("fmt.Sprint")
+	models["fmt.Fprintln"] = fprint("fmt.Sprintln")
 	models["bytes.NewBuffer"] = func(p *Path, fn *ssa.Function, a []Value) Value {
 		cell := new(Value)
 		*cell = Struct{} // opaque: the state lives in the side table, keyed by this cell
